@@ -12,9 +12,9 @@ from mc.ref import expr as rx
 
 ID = "C03"
 LEVEL = "model_checking"
-LEVEL_TEXT = ("Explicit enumeration of every sequence of layout events up to depth 4 over a 16-event alphabet (emit 1/3 bytes, "
-              "self-address data, `*=` to window start / last byte of a bank / mirror / other bank / RAM, `@=` to ROM same bank / "
-              "other bank / RAM, open/close block, macro application, 2-iteration loop, conditional) plus depth 5 over the 13 core "
+LEVEL_TEXT = ("Explicit enumeration of every sequence of layout events up to depth 4 over a 18-event alphabet (emit 1/3 bytes, "
+              "self-address data, `*=` to window start / file offset 0 / the current run address / last byte of a bank / mirror / other bank / RAM, `@=` to ROM same bank / "
+              "other bank / RAM, open/close block, macro application, 2-iteration loop, conditional) plus depth 5 over the 14 core "
               "events (thorough: depth 5 full, depth 6 core), under LoROM, HiROM and two `.map` configurations; every sequence is "
               "rendered to source, assembled by the real assembler and its writer calls compared block by block with the reference "
               "assembler's prediction (offsets, contiguity, order, run addresses via self-address data and labels). "
@@ -31,26 +31,26 @@ N = rx.num
 S = rx.sym
 
 ADDR = {
-    "low_rom": dict(start=0x018000, last=0x01FFFF, mirror=0x818010, other=0x02C000, ram=0x7E0100, r_same=0x01A000, r_other=0x038000, r_ram=0x7E2000),
-    "high_rom": dict(start=0x410000, last=0x41FFFF, mirror=0xC10010, other=0x42C000, ram=0x7E0100, r_same=0x41A000, r_other=0x438000, r_ram=0x7E2000),
+    "low_rom": dict(zero=0x008000, start=0x018000, last=0x01FFFF, mirror=0x818010, other=0x02C000, ram=0x7E0100, r_same=0x01A000, r_other=0x038000, r_ram=0x7E2000),
+    "high_rom": dict(zero=0x400000, start=0x410000, last=0x41FFFF, mirror=0xC10010, other=0x42C000, ram=0x7E0100, r_same=0x41A000, r_other=0x438000, r_ram=0x7E2000),
     # .map configuration A: LoROM-like, banks 00-3F mirrored at 80-BF, RAM 7E-7F
-    "mapA": dict(start=0x018000, last=0x01FFFF, mirror=0x818010, other=0x02C000, ram=0x7E0100, r_same=0x01A000, r_other=0x038000, r_ram=0x7E2000),
+    "mapA": dict(zero=0x008000, start=0x018000, last=0x01FFFF, mirror=0x818010, other=0x02C000, ram=0x7E0100, r_same=0x01A000, r_other=0x038000, r_ram=0x7E2000),
     # .map configuration B: 64K windows, banks 40-6F, no mirror (mirror event targets a second ROM range F0-F3 with 32K windows), RAM 7E-7F
-    "mapB": dict(start=0x410000, last=0x41FFFF, mirror=0xF18010, other=0x42C000, ram=0x7E0100, r_same=0x41A000, r_other=0x438000, r_ram=0x7E2000),
+    "mapB": dict(zero=0x400000, start=0x410000, last=0x41FFFF, mirror=0xF18010, other=0x42C000, ram=0x7E0100, r_same=0x41A000, r_other=0x438000, r_ram=0x7E2000),
 }
 MAPS = {
     "mapA": [("1", (0x00, 0x3F), 0x8000, False, (0x80, 0xBF)), ("2", (0x7E, 0x7F), 0x10000, True, None)],
     "mapB": [("1", (0x40, 0x6F), 0x10000, False, None), ("3", (0xF0, 0xF3), 0x8000, False, None), ("2", (0x7E, 0x7F), 0x10000, True, None)],
 }
-EVENTS = ["E1", "E3", "ES", "OW", "OL", "OM", "OB", "OR", "RS", "RO", "RR", "BO", "BC", "MA", "FO", "IF"]
-CORE = [e for e in EVENTS if e not in ("MA", "FO", "IF")]
+EVENTS = ["E1", "E3", "ES", "OW", "OZ", "OH", "OL", "OM", "OB", "OR", "RS", "RO", "RR", "BO", "BC", "MA", "FO", "IF"]
+CORE = [e for e in EVENTS if e not in ("MA", "FO", "IF", "E3")]
 MACRO = ("macro", "mm", ["pp"], [("label", "ml"), ("data", "db", [S("pp")]), ("data", "db", [("b", "&", S("ml"), N(0xFF))])])
 
 
 def bound(tier):
     if tier == "thorough":
-        return "all event sequences of depth <=5 over 16 events and depth 6 over 13 core events (LoROM); depth <=4 under HiROM and 2 .map configurations"
-    return "all event sequences of depth <=4 over 16 events and depth 5 over 13 core events (LoROM); depth <=4 (13 core events) under HiROM and 2 .map configurations"
+        return "all event sequences of depth <=5 over 18 events and depth 6 over 14 core events (LoROM); depth <=4 under HiROM and 2 .map configurations"
+    return "all event sequences of depth <=4 over 18 events and depth 5 over 14 core events (LoROM); depth <=4 (14 core events) under HiROM and 2 .map configurations"
 
 
 def cases(tier, seed):
@@ -102,6 +102,12 @@ def build(cfg, events):
             cur.append(("data", "dl", [S(f"L{i}")]))
         elif ev == "OW":
             cur.append(("org", N(a["start"])))
+        elif ev == "OZ":
+            cur.append(("org", N(a["zero"])))
+        elif ev == "OH":
+            # `*=` to the run address already reached (through a label): must still move the output offset there
+            cur.append(("label", f"H{i}"))
+            cur.append(("org", S(f"H{i}")))
         elif ev == "OL":
             cur.append(("org", N(a["last"])))
         elif ev == "OM":
